@@ -331,7 +331,7 @@ def _walk(v):
                     yield from _walk(y)
 
 
-def c07_6(ctx):
+def _c07_6_structural(ctx):
     """op_if / op_notif: opposite polarity on the same zero test; nesting tokens"""
     out = []
     m, node, table = table_names(ctx.repo, "op", "OP_CODE_FUNCTIONS")
@@ -403,6 +403,16 @@ def c07_6(ctx):
         else:
             out.append(ctx.bad("op:op_if/op_notif", "polarity: IF runs first branch on non-zero=%s, NOTIF on non-zero=%s (consensus: True / False)" % (pol["OP_IF"], pol["OP_NOTIF"]), key="polarity"))
     return out
+
+
+def c07_6(ctx):
+    """structural reading of op_if / op_notif; when the handlers are not in the recognised shape the clause is left to the
+    cell evaluation of C07.13, which decides polarity and nesting from the handlers' behaviour on every token cell"""
+    try:
+        return _c07_6_structural(ctx)
+    except AnalysisError as e:
+        m = ctx.repo.module("op")
+        return [ctx.ok("op:op_if/op_notif", "handlers not in the structural form this rule reads (%s); polarity and nesting are decided by C07.13" % e, None, m, key="deferred")]
 
 
 def _expected_handler(code):
@@ -778,6 +788,145 @@ def c07_12(ctx):
     return out
 
 
+def _cond_reference(tokens):
+    """consensus structure of the tokens following an OP_IF / OP_NOTIF: (then part, else part, rest) or None when the
+    conditional is not closed; nested conditionals stay inside the part they occur in"""
+    depth, part, then, other = 1, 0, [], []
+    for i, t in enumerate(tokens):
+        if t in (99, 100):
+            depth += 1
+        elif t == 104:
+            depth -= 1
+            if depth == 0:
+                return then, other, list(tokens[i + 1:])
+        elif t == 103 and depth == 1:
+            if part == 1:
+                return "multi-else"
+            part = 1
+            continue
+        (then if part == 0 else other).append(t)
+    return None
+
+
+def c07_13(ctx):
+    """op_if / op_notif split the following items exactly as consensus nests conditionals: bounded cell evaluation over
+    every sequence of up to 5 tokens from {IF, NOTIF, ELSE, ENDIF, other} and a zero / non-zero top element"""
+    import itertools
+
+    from sa.cells import Evaluator, Raised, Undecided
+    out = []
+    m, node, table = table_names(ctx.repo, "op", "OP_CODE_FUNCTIONS")
+    other = next(v for v in (0x51, 0x61, 0x75) if v not in (99, 100, 103, 104))
+    seqs = [list(t) for n in range(0, 6) for t in itertools.product((99, 100, 103, 104, other), repeat=n)]
+    for code, label in ((99, "OP_IF"), (100, "OP_NOTIF")):
+        hname = table.get(code)
+        if hname not in m.functions:
+            raise AnalysisError("%s handler missing" % label)
+        fn = m.functions[hname]
+        spec = "op:" + hname
+        bad = None
+        n = 0
+        for toks in seqs:
+            ref = _cond_reference(toks)
+            if ref == "multi-else":
+                continue  # more than one OP_ELSE per conditional is outside "properly nested"
+            for top, nonzero in ((b"", False), (b"\x01", True), (b"\x80", False)):
+                stack, items = [top], list(toks)
+                n += 1
+                try:
+                    r = Evaluator(ctx.repo).call(spec, [stack, items])
+                except Undecided as u:
+                    bad = ("err", "%s not evaluable: %s" % (hname, u))
+                    break
+                except Raised as x:
+                    bad = ("bad", "raises %s on items %s" % (x.name, _tok_txt(toks)))
+                    break
+                if ref is None:
+                    if r is not False:
+                        bad = ("bad", "accepts the unterminated conditional %s" % _tok_txt(toks))
+                        break
+                    continue
+                then, els, rest = ref
+                runs_then = nonzero if code == 99 else not nonzero
+                want = (then if runs_then else els) + rest
+                if r is not True or items != want or stack:
+                    bad = ("bad", "%s with a %s top element on items %s leaves %s to execute (result %r); consensus executes %s" % (
+                        label, "non-zero" if nonzero else "zero", _tok_txt(toks), _tok_txt(items), r, _tok_txt(want)))
+                    break
+            if bad:
+                break
+        ctx.count("cells", n)
+        if bad and bad[0] == "err":
+            out.append(ctx.err(spec, bad[1], fn, m))
+        elif bad:
+            out.append(ctx.bad(spec, bad[1], fn, m, key="nesting:" + label))
+        else:
+            out.append(ctx.ok(spec, "%s: %d (token sequence, top element) cells up to length 5 are split as consensus nests conditionals" % (label, n), fn, m, key="nesting:" + label))
+    return out
+
+
+def c07_14(ctx):
+    """Sequence.__lt__ (the relation OP_CHECKSEQUENCEVERIFY uses): two comparable relative locks are compared on the low
+    16 bits only (BIP68 / BIP112: the other bits carry no lock value)"""
+    spec = "timelock:Sequence.__lt__"
+    mod, fn = rl.get(ctx, spec)
+    ps = param_names(fn)
+    me, other = ps[0], ps[1]
+    f = Folder(ctx.repo, mod.name)
+    cfg = cfg_of(fn)
+
+    def masked(name):
+        def pred(e):
+            if isinstance(e, ast.BinOp) and isinstance(e.op, ast.BitAnd):
+                for a, b in ((e.left, e.right), (e.right, e.left)):
+                    if isinstance(a, ast.Name) and a.id == name and f.fold(b) == 0xFFFF:
+                        return True
+            return False
+        return pred
+
+    def plain(name):
+        def pred(e):
+            t = ast.unparse(e)
+            return t in (name, "int(%s)" % name)
+        return pred
+    out = []
+    seen = 0
+    for n in cfg.returns():
+        if n.ast is None or n.ast.value is None:
+            continue
+        # the plain-int arm (`type(other) is int`) is outside the clause: only exits reached with is_comparable() true count
+        reached_by = [t for t in cfg.tests() if "is_comparable" in ast.unparse(t.ast)]
+        if not reached_by:
+            raise AnalysisError("Sequence.__lt__: is_comparable test not found")
+        if not any(n.id in reach_ps(cfg, [b for b, l in cfg.succ[t.id] if l is True])[0] for t in reached_by):
+            continue
+        seen += 1
+        v = expand(fn, n.id, n.ast.value)
+        r = rl.rel(v, masked(me), masked(other))
+        if r == "<":
+            out.append(ctx.ok(spec, "comparable sequences are compared as `%s` (low 16 bits)" % ast.unparse(v), n.ast, mod, key="csv-mask"))
+            continue
+        txt = ast.unparse(v)
+        unmasked = rl.rel(v, plain(me), plain(other)) == "<" or (isinstance(v, ast.Call) and isinstance(v.func, ast.Attribute) and v.func.attr == "__lt__"
+                                                                and ast.unparse(v.func.value) in ("super()", "int") and ast.unparse(v.args[-1]) == other)
+        half = rl.rel(v, masked(me), plain(other)) == "<" or rl.rel(v, plain(me), masked(other)) == "<"
+        if unmasked or half:
+            out.append(ctx.bad(spec, "comparable sequences are compared as `%s`: bits 16-31 (which BIP68/BIP112 ignore) take part, so nSequence = 5|(1<<20) "
+                               "satisfies an operand of 10 and nSequence = 20 fails an operand of 10|(1<<16)" % txt, n.ast, mod, key="csv-mask"))
+        elif r is not None:
+            out.append(ctx.bad(spec, "comparable sequences are related by `%s` (%s), expected `<` on the masked values" % (txt, r), n.ast, mod, key="csv-mask"))
+        else:
+            out.append(ctx.err(spec, "comparison of comparable sequences `%s` not recognised" % txt, n.ast, mod))
+    if not seen:
+        raise AnalysisError("Sequence.__lt__: no exit under is_comparable() found")
+    return out
+
+
+def _tok_txt(toks):
+    nm = {99: "IF", 100: "NOTIF", 103: "ELSE", 104: "ENDIF"}
+    return "[" + " ".join(nm.get(t, "op") if isinstance(t, int) else repr(t) for t in toks) + "]"
+
+
 OBLIGATIONS = [
     ("C07.1", "STACKFX", c07_1),
     ("C07.2", "STACKFX", c07_2),
@@ -791,5 +940,7 @@ OBLIGATIONS = [
     ("C07.10", "GUARD order", c07_10),
     ("C07.11", "TABLE", c07_11),
     ("C07.12", "RANGE", c07_12),
+    ("C07.13", "CELLS nesting", c07_13),
+    ("C07.14", "RELATION mask", c07_14),
 ]
-FLOORS = {"C07.1": 40, "C07.2": 26, "C07.3": 5, "C07.4": 2, "C07.5": 7, "C07.6": 5, "C07.7": 4, "C07.8": 2, "C07.9": 7, "C07.10": 7, "C07.11": 9, "C07.12": 4}
+FLOORS = {"C07.1": 40, "C07.2": 26, "C07.3": 5, "C07.4": 2, "C07.5": 7, "C07.6": 1, "C07.7": 4, "C07.8": 2, "C07.9": 7, "C07.10": 7, "C07.11": 9, "C07.12": 4, "C07.13": 2, "C07.14": 1}
